@@ -142,6 +142,10 @@ class Heartbeat(core.Scenario):
                 sc.pong_reqs = getattr(sc, 'pong_reqs', []) + [peer.post(sc.world, sc.sid, '3', run=False)]
             else:
                 sc.world.ws_send(sc.ws, '3')
+            if sc.params.get('dup') and not getattr(sc, 'dup_done', False):
+                # the first PONG reaches the server a second time (a retransmitted POST, a repeated frame)
+                sc.dup_done = True
+                sc.pongs.append(sc._pong_action(sc.world.now + sc.params['dup']))
         return core.Action('pong', fire, None, at)
 
     def _on_ping(self, t):
@@ -206,6 +210,10 @@ class Heartbeat(core.Scenario):
             expect.append(t + iv)
         punctual = all(d in ('zero', 'early') for d in p['delays'])
         seen = list(self.pings_seen)
+        if p.get('dup') and disc:
+            # two PING cycles: the one whose timer wakes after the session has been dropped emits nothing
+            expect = [e for e in expect if e < disc[0][3] - EPS]
+            seen = [e for e in seen if e < disc[0][3] - EPS]
         late_idx = [i for i, d in enumerate(p['delays']) if d in ('exact', 'late')]
         upto = (late_idx[0] + 1) if late_idx else len(expect)
         if p.get('stall') == 'before_ping' or p['transport'] == 'ws_dropped':
@@ -321,6 +329,14 @@ def param_list(ctx):
                                 for pre in ('closed_session', 'rejected_open', 'disconnect_all'):
                                     ps.append({'impl': impl, 'grid': list(g), 'transport': tr, 'delays': list(seq), 'mode': mode,
                                                'monitor': True, 'send_at': None, 'after_idle': pre})
+                            if seq == () and mode == 'mute':
+                                # the first PONG arrives twice, half an interval apart: every PONG restarts an interval of its own,
+                                # a peer that answers each PING it is sent is live
+                                for dl in ('zero', 'early'):
+                                    for s in (None, 2 * iv + (to - 0.125 if dl == 'early' else 0) + to + 0.125):
+                                        if s is None or to + 0.125 < iv / 2:
+                                            ps.append({'impl': impl, 'grid': list(g), 'transport': tr, 'delays': [dl] * 4, 'mode': 'mute',
+                                                       'monitor': mon, 'send_at': s, 'dup': iv / 2})
                             if tr == 'polling' and seq == () and mode == 'mute' and iv > 0.25:
                                 for stall in ('after_ping', 'before_ping'):
                                     for s in (None, iv + to + 0.25):
